@@ -2,8 +2,9 @@
 from props import C19
 from props.common_prog import judge_prog
 
-THEOREM_MODULES = ["Hcl.Theorems.C02", "Hcl.Tie.Ops"]
-THEOREMS = {"Hcl.Tie.Ops": ["Tie.Ops.binopKind", "Tie.Ops.applyRawArms", "Tie.Ops.binopApplyText", "Tie.Ops.unopApplyText", "Tie.Ops.maskText", "Tie.Ops.combineText", "Tie.Ops.maxText"], "Hcl.Theorems.C02": ["C02_accepted", "Program_new_all", "C02_eval_eq_denote", "C02_assign", "ev_correct", "applyBin_spec", "applyUn_spec"]}
+THEOREM_MODULES = ["Hcl.Theorems.C02", "Hcl.Tie.Ops", "Hcl.Tie.PinsValue"]
+THEOREMS = {"Hcl.Tie.PinsValue": ["Tie.PinsValue.pinAsWidth", "Tie.PinsValue.pinValueOp"],
+            "Hcl.Tie.Ops": ["Tie.Ops.binopKind", "Tie.Ops.applyRawArms", "Tie.Ops.binopApplyText", "Tie.Ops.unopApplyText", "Tie.Ops.maskText", "Tie.Ops.combineText", "Tie.Ops.maxText"], "Hcl.Theorems.C02": ["C02_accepted", "Program_new_all", "C02_eval_eq_denote", "C02_assign", "ev_correct", "applyBin_spec", "applyUn_spec"]}
 
 RULE = ("S-EXPR: type-directed random expressions (every operator, depth 1-5, operand/result widths from "
         "{unsized,0,1,2,3,4,7,8,15,16,31,32,33,63,64,65,80,127,128}, values biased to 0, 1, 2^w-1, 2^(w-1), 2^64+-1, 2^127, "
